@@ -226,6 +226,11 @@ var CommandFeatures = []Feature{
 		}(),
 		alt("extra", `{matrix: {setup: [a], zzz: {k: 1, j: 2}}}`, `{matrix: {setup: [a], zzz: {k: 1, j: 2}}}`, "matrix"),
 		emptyOK("null", `{matrix: null}`, "matrix"),
+		// an anonymous dimension without values (all values come from adjustments, or there are none): how the empty setup is
+		// spelled in the output is not specified, that the output parses back to the same step is (C09, C02)
+		{Name: "anon-empty-adjust", In: Y(`{matrix: {setup: [], adjustments: [{with: b}, {with: c, skip: true}]}}`),
+			Out: Map("matrix", UMap("setup", OneOf(Seq(), Map("", Seq())), "adjustments", Seq(UMap("with", Str("b")), UMap("with", Str("c"), "skip", Bool(true)))))},
+		{Name: "anon-empty", In: Y(`{matrix: []}`), Out: Map("matrix", OneOf(Seq(), UMap("setup", OneOf(Seq(), Map("", Seq()))))).MarkOpt("matrix")},
 	}},
 	{"cmd.cache", []Alt{
 		alt("none", `{}`, `{}`),
@@ -257,6 +262,8 @@ var CommandFeatures = []Feature{
 			"in", Seq(BoolRaw("True", true), NullRaw("~"), Map("k", BoolRaw("FALSE", false))), "yes", Str("yes"), "off", Str("off")),
 			Out: Map("t1", Bool(true), "t2", Bool(true), "f1", Bool(false), "f2", Bool(false), "n1", Null(), "n2", Null(), "n3", Null(), "in", Seq(Bool(true), Null(), Map("k", Bool(false))), "yes", Str("yes"), "off", Str("off"))},
 		// keys that would name another kind of step are ordinary extra keys of a command step, wherever they are written
+		// string keys of a nested (order-preserving) mapping that look like other YAML scalars
+		alt("lookalike-keys", `{meta: {"0x10": a, "007": b, "~": c, "1e3": d, "True": e, "null": f, "1_000": g, "+7": h, ".5": i}}`, `{meta: {"0x10": a, "007": b, "~": c, "1e3": d, "True": e, "null": f, "1_000": g, "+7": h, ".5": i}}`),
 		alt("kind-keys", `{wait: null, block: b2, trigger: t2, group: null, steps: []}`, `{wait: null, block: b2, trigger: t2, group: null, steps: []}`),
 		{Name: "timestamp", In: Map("when", Time("2002-08-15T01:02:03Z")), Out: Map("when", Time("2002-08-15T01:02:03Z"))},
 		{Name: "timestamp-nested", In: Map("sched", Map("b", Time("2002-08-15T01:02:03Z"), "a", Seq(Map("t", Time("2001-01-01T00:00:00Z"))))), Out: Map("sched", Map("b", Time("2002-08-15T01:02:03Z"), "a", Seq(Map("t", Time("2001-01-01T00:00:00Z")))))},
